@@ -7,6 +7,7 @@ import (
 	"encoding/json"
 	"fmt"
 	"strings"
+	"sync/atomic"
 	"time"
 
 	"github.com/jamf/regatta/regattapb"
@@ -251,6 +252,43 @@ func RunSized(c Case) (vs []viol, outcome string, evals int64, multi int) {
 	return vs, sb.String(), evals, multi
 }
 
+// RunSweep: two pairs whose sizes add up to every value in a window around the message limit (the
+// second value shrinks byte by byte): wherever the implementation draws the line between "fits into
+// this message" and "starts the next one", the largest message it ever builds is in this sweep.
+func RunSweep(c Case) (vs []viol, outcome string) {
+	env := fsmx.NewEnv()
+	inst, _, err := env.Open("t", 10001, fsm.RecoveryTypeSnapshot)
+	if err != nil {
+		return []viol{{"open-error", err.Error()}}, ""
+	}
+	defer inst.Close()
+	m := refkv.New()
+	for i, kv := range sizedContent(c.Sizes) {
+		if err := fill(inst, m, uint64(i+1), kv); err != nil {
+			return []viol{{"update-error", err.Error()}}, ""
+		}
+	}
+	var sb strings.Builder
+	req := &regattapb.RequestOp_Range{Key: B("k"), RangeEnd: []byte{0}}
+	msgs := checkStream(inst, m, req, &vs, &sb)
+	got, err := inst.Range(req)
+	if err != nil {
+		return append(vs, viol{"read-error", err.Error()}), ""
+	}
+	if sz := encodedSize(got); sz >= grpcLimit {
+		vs = append(vs, viol{"unary-message-too-large/" + form(req), fmt.Sprintf("%s: %d bytes", fsmx.RangeReqStr(req), sz)})
+	}
+	want := m.Range(req)
+	k := len(got.Kvs)
+	if k == 0 || k > len(want.Kvs) || !fsmx.EqualKVs(got.Kvs, want.Kvs[:k]) || got.More != (k < len(want.Kvs)) || got.Count != int64(k) {
+		vs = append(vs, viol{"read-mismatch/sweep", fmt.Sprintf("sizes %v: returned %d pairs more=%v count=%d", c.Sizes, k, got.More, got.Count)})
+	}
+	for i := range vs {
+		vs[i].sig = "sweep/" + vs[i].sig
+	}
+	return vs, fmt.Sprintf("msgs=%d unary=%d", msgs, k)
+}
+
 // RunPaging: pull the stream message by message, applying one write after the WriteAt-th pull; the
 // concatenation must equal the state at the first pull.
 func RunPaging(c Case) (vs []viol, outcome string, evals int64) {
@@ -326,7 +364,7 @@ func Run(r *evid.Run) {
 	if r.Thorough() {
 		maxSized = 5
 	}
-	r.Rule(fmt.Sprintf("(small) all 64 subsets of 6 prefix-related keys x all 100 bound pairs over 10 bounds incl. the wildcard x every limit 0..n+1 x {full, keys-only, count-only}, each as unary Lookup and as streamed iterator, compared with the sorted-map model; (sized) every content of 1..%d pairs with value sizes from {1KiB,1MiB,2MiB-1KiB,2MiB} in every order x every limit x 3 forms: stream concatenation, per-message flags/counts, encoded size < 4MiB, unary prefix + truthful more; (paging) for sized contents, one write applied between any two pulls; (api) 4 small and 3 sized contents on a real storage.Engine, every bound pair x limit x form x {serializable, linearizable} through the real KVServer.Range and KVServer.IterateRange (recording stream): content, counts, more flags, headers, message sizes. Non-trivial: the read returned at least one pair or count>0; distinct = distinct renderings of all answers of a content", maxSized))
+	r.Rule(fmt.Sprintf("(small) all 64 subsets of 6 prefix-related keys x all 100 bound pairs over 10 bounds incl. the wildcard x every limit 0..n+1 x {full, keys-only, count-only}, each as unary Lookup and as streamed iterator, compared with the sorted-map model; (sized) every content of 1..%d pairs with value sizes from {1KiB,1MiB,2MiB-1KiB,2MiB} in every order x every limit x 3 forms: stream concatenation, per-message flags/counts, encoded size < 4MiB, unary prefix + truthful more; (sweep) two pairs of 2MiB and 2MiB-d bytes for EVERY d in 0..2099, streamed and unary: wherever the line between 'fits' and 'next message' is drawn, the largest message ever built lies in the sweep and must encode (with a maximal header) below 4MiB; (paging) for sized contents, one write applied between any two pulls; (api) 4 small and 3 sized contents on a real storage.Engine, every bound pair x limit x form x {serializable, linearizable} through the real KVServer.Range and KVServer.IterateRange (recording stream): content, counts, more flags, headers, message sizes. Non-trivial: the read returned at least one pair or count>0; distinct = distinct renderings of all answers of a content", maxSized))
 	// small
 	var evals int64
 	par.For(64, r.Expired, func(i int64) {
@@ -357,6 +395,28 @@ func Run(r *evid.Run) {
 	})
 	if done < int64(len(seqs)) {
 		r.Cap(fmt.Sprintf("deadline: %d of %d sized contents", done, len(seqs)))
+	}
+	// boundary sweep
+	window := 2100
+	var split, joined atomic.Int64
+	par.For(int64(window), r.Expired, func(d int64) {
+		c := Case{Kind: "sweep", Sizes: []int{2 << 20, 2<<20 - int(d)}}
+		vs, outcome := RunSweep(c)
+		r.Outcome("sweep"+outcome, true)
+		if strings.HasPrefix(outcome, "msgs=1") {
+			joined.Add(1)
+		} else {
+			split.Add(1)
+		}
+		for _, v := range vs {
+			r.Violate(v.sig, v.detail, c)
+		}
+	})
+	r.Extra("sweep_contents", window)
+	r.Extra("sweep_contents_in_one_message", joined.Load())
+	r.Extra("sweep_contents_in_two_messages", split.Load())
+	if joined.Load() == 0 || split.Load() == 0 {
+		r.Cap("boundary sweep: the window did not straddle the point where the second pair moves to the next message")
 	}
 	// paging: sized contents that need >= 2 messages
 	var pcases []Case
@@ -407,6 +467,8 @@ func Replay(raw json.RawMessage) (string, bool) {
 		vs, _, _, _ = RunSized(c)
 	case "paging":
 		vs, _, _ = RunPaging(c)
+	case "sweep":
+		vs, _ = RunSweep(c)
 	}
 	var sb strings.Builder
 	seen := map[string]bool{}
